@@ -170,6 +170,96 @@ def _vstream(vm, nq, nt, nres):
     return qids, tids, stream
 
 
+def check_visual_assignment(vm, P, O, qids, tids, stream, res, pthr, labels_for_self=True):
+    """the C12 oracle on a decoded answer `res` (query index -> (('track', j) | ('self',) | ('other',), 'Visual' | 'Positional')):
+    appearance claims first (greatest weight wins, losers excluded), positional maximum-weight fallback among the rest"""
+    nq, nt = len(qids), len(tids)
+    in_stream = [any(vm.branch(f.e == qids[qi].e) for f, _, _, _ in stream) for qi in range(nq)]
+    claims = {qi: [ti for ti in range(nt) if O.qualifies(qi, ti)] for qi in range(nq)}
+    visual_q = [qi for qi in range(nq) if claims[qi]]
+    taken = {}     # track index -> query index, tracks attached by appearance
+    for qi in visual_q:
+        vm.check(BOOL(qi in res), "a detection with an appearance claim gets an answer")
+        if qi not in res:
+            continue
+        tgt, vt = res[qi]
+        if labels_for_self or tgt[0] != 'self':
+            vm.check(BOOL(vt == 'Visual'), "an answer decided by appearance is labelled Visual")
+        vm.check(BOOL(tgt[0] in ('track', 'self')), "a detection maps to a track or to itself (new track)")
+        if tgt[0] == 'track':
+            ti = tgt[1]
+            vm.check(BOOL(ti in claims[qi]), "a detection is attached by appearance only to a track it has enough close features for")
+            vm.check(BOOL(ti not in taken), "no track is attached to two detections")
+            taken[ti] = qi
+            for other in visual_q:
+                if other != qi and ti in claims[other]:
+                    vm.check(f_ge(O.weight(qi, ti), O.weight(other, ti)), "a contested track goes to the claimant with the greatest vote weight")
+        # the straightforward case: the detection's heaviest claim is not contested by a heavier claimant -> it must get that track
+        best = [ti for ti in claims[qi] if all(vm.branch(f_ge(O.weight(qi, ti), O.weight(qi, tj))) for tj in claims[qi])]
+        if len(best) == 1:
+            ti = best[0]
+            strictly_top = all(vm.branch(f_gt(O.weight(qi, ti), O.weight(qi, tj))) for tj in claims[qi] if tj != ti)
+            uncontested = all(not (ti in claims[o2]) or vm.branch(f_gt(O.weight(qi, ti), O.weight(o2, ti))) for o2 in visual_q if o2 != qi)
+            if strictly_top and uncontested:
+                vm.check(BOOL(tgt == ('track', ti)), "a detection whose heaviest claim wins its track is attached to that track")
+    # ---- positional stage: detections without claims, tracks not taken by appearance
+    pos_q = [qi for qi in range(nq) if in_stream[qi] and not claims[qi]]
+    free_t = [ti for ti in range(nt) if ti not in taken]
+
+    def conv(w):
+        return vm.cast(f_mul(w, f32(F32_MULT)), 'i64', 'FloatToInt').e
+    thr_i = conv(pthr)
+    W = {}
+    eligible = {}
+    for qi in pos_q:
+        for ti in free_t:
+            W[(qi, ti)] = z3.BitVecVal(0, 64)
+            eligible[(qi, ti)] = False
+    for f, t, w, d in stream:
+        qi, ti = O.index_of(qids, f), O.index_of(tids, t)
+        if qi in pos_q and ti in free_t and w is not None:
+            W[(qi, ti)] = conv(w)
+            eligible[(qi, ti)] = True
+    participating = [qi for qi in pos_q if any(eligible[(qi, ti)] for ti in free_t)]
+    assign = {}
+    for qi in pos_q:
+        if qi in participating:
+            vm.check(BOOL(qi in res), "a detection with a positional candidate gets an answer")
+        if qi not in res:
+            continue
+        tgt, vt = res[qi]
+        if labels_for_self or tgt[0] != 'self':
+            vm.check(BOOL(vt == 'Positional'), "an answer not decided by appearance is labelled Positional")
+        vm.check(BOOL(tgt[0] in ('track', 'self')), "a detection maps to a track or to itself (new track)")
+        if tgt[0] == 'track':
+            ti = tgt[1]
+            vm.check(BOOL(ti in free_t), "a track taken by appearance is not given away positionally")
+            vm.check(BOOL(ti not in assign.values()), "no track is attached to two detections")
+            if ti in free_t:
+                vm.check(BOOL(eligible[(qi, ti)]), "positional attachment only along a gated pair")
+                vm.check(W[(qi, ti)] >= thr_i, "positional attachment only at or above the threshold")
+                assign[qi] = ti
+    # maximum total weight among one-to-one assignments of the participating detections (unmatched = threshold)
+    def total(a):
+        s = z3.BitVecVal(0, 128)
+        for qi in participating:
+            ti = a.get(qi)
+            s = s + z3.SignExt(64, thr_i if ti is None else W[(qi, ti)])
+        return s
+    mine = total({qi: assign.get(qi) for qi in participating})
+    for combo in itertools.product([None] + free_t, repeat=len(participating)):
+        used = [x for x in combo if x is not None]
+        if len(used) != len(set(used)):
+            continue
+        alt = dict(zip(participating, combo))
+        if any(ti is not None and not eligible[(qi, ti)] for qi, ti in alt.items()):
+            continue
+        vm.check(mine >= total(alt), "positional continuations have maximum total weight (unmatched counts as the threshold)")
+    for qi in range(nq):
+        if not in_stream[qi]:
+            vm.check(BOOL(qi not in res), "no answer for a detection that is not in the stream")
+
+
 def _mk_voting(nq, nt, nres):
     def q(vm, P):
         fn = P.impl_methods[('VisualVoting', 'Voting', 'winners')][0][0]
@@ -194,88 +284,7 @@ def _mk_voting(nq, nt, nres):
             ti = O.index_of(tids, tgt)
             res[qi] = (('track', ti) if ti is not None else ('self',) if vm.branch(tgt.e == qids[qi].e) else ('other',),
                        'Visual' if is_variant(P, vt, 'VotingType', 'Visual') else 'Positional')
-        in_stream = [any(vm.branch(f.e == qids[qi].e) for f, _, _, _ in stream) for qi in range(nq)]
-        claims = {qi: [ti for ti in range(nt) if O.qualifies(qi, ti)] for qi in range(nq)}
-        visual_q = [qi for qi in range(nq) if claims[qi]]
-        taken = {}     # track index -> query index, tracks attached by appearance
-        for qi in visual_q:
-            vm.check(BOOL(qi in res), "a detection with an appearance claim gets an answer")
-            if qi not in res:
-                continue
-            tgt, vt = res[qi]
-            vm.check(BOOL(vt == 'Visual'), "an answer decided by appearance is labelled Visual")
-            vm.check(BOOL(tgt[0] in ('track', 'self')), "a detection maps to a track or to itself (new track)")
-            if tgt[0] == 'track':
-                ti = tgt[1]
-                vm.check(BOOL(ti in claims[qi]), "a detection is attached by appearance only to a track it has enough close features for")
-                vm.check(BOOL(ti not in taken), "no track is attached to two detections")
-                taken[ti] = qi
-                for other in visual_q:
-                    if other != qi and ti in claims[other]:
-                        vm.check(f_ge(O.weight(qi, ti), O.weight(other, ti)), "a contested track goes to the claimant with the greatest vote weight")
-            # the straightforward case: the detection's heaviest claim is not contested by a heavier claimant -> it must get that track
-            best = [ti for ti in claims[qi] if all(vm.branch(f_ge(O.weight(qi, ti), O.weight(qi, tj))) for tj in claims[qi])]
-            if len(best) == 1:
-                ti = best[0]
-                strictly_top = all(vm.branch(f_gt(O.weight(qi, ti), O.weight(qi, tj))) for tj in claims[qi] if tj != ti)
-                uncontested = all(not (ti in claims[o2]) or vm.branch(f_gt(O.weight(qi, ti), O.weight(o2, ti))) for o2 in visual_q if o2 != qi)
-                if strictly_top and uncontested:
-                    vm.check(BOOL(tgt == ('track', ti)), "a detection whose heaviest claim wins its track is attached to that track")
-        # ---- positional stage: detections without claims, tracks not taken by appearance
-        pos_q = [qi for qi in range(nq) if in_stream[qi] and not claims[qi]]
-        free_t = [ti for ti in range(nt) if ti not in taken]
-
-        def conv(w):
-            return vm.cast(f_mul(w, f32(F32_MULT)), 'i64', 'FloatToInt').e
-        thr_i = conv(pthr)
-        W = {}
-        eligible = {}
-        for qi in pos_q:
-            for ti in free_t:
-                W[(qi, ti)] = z3.BitVecVal(0, 64)
-                eligible[(qi, ti)] = False
-        for f, t, w, d in stream:
-            qi, ti = O.index_of(qids, f), O.index_of(tids, t)
-            if qi in pos_q and ti in free_t and w is not None:
-                W[(qi, ti)] = conv(w)
-                eligible[(qi, ti)] = True
-        participating = [qi for qi in pos_q if any(eligible[(qi, ti)] for ti in free_t)]
-        assign = {}
-        for qi in pos_q:
-            if qi in participating:
-                vm.check(BOOL(qi in res), "a detection with a positional candidate gets an answer")
-            if qi not in res:
-                continue
-            tgt, vt = res[qi]
-            vm.check(BOOL(vt == 'Positional'), "an answer not decided by appearance is labelled Positional")
-            vm.check(BOOL(tgt[0] in ('track', 'self')), "a detection maps to a track or to itself (new track)")
-            if tgt[0] == 'track':
-                ti = tgt[1]
-                vm.check(BOOL(ti in free_t), "a track taken by appearance is not given away positionally")
-                vm.check(BOOL(ti not in assign.values()), "no track is attached to two detections")
-                if ti in free_t:
-                    vm.check(BOOL(eligible[(qi, ti)]), "positional attachment only along a gated pair")
-                    vm.check(W[(qi, ti)] >= thr_i, "positional attachment only at or above the threshold")
-                    assign[qi] = ti
-        # maximum total weight among one-to-one assignments of the participating detections (unmatched = threshold)
-        def total(a):
-            s = z3.BitVecVal(0, 128)
-            for qi in participating:
-                ti = a.get(qi)
-                s = s + z3.SignExt(64, thr_i if ti is None else W[(qi, ti)])
-            return s
-        mine = total({qi: assign.get(qi) for qi in participating})
-        for combo in itertools.product([None] + free_t, repeat=len(participating)):
-            used = [x for x in combo if x is not None]
-            if len(used) != len(set(used)):
-                continue
-            alt = dict(zip(participating, combo))
-            if any(ti is not None and not eligible[(qi, ti)] for qi, ti in alt.items()):
-                continue
-            vm.check(mine >= total(alt), "positional continuations have maximum total weight (unmatched counts as the threshold)")
-        for qi in range(nq):
-            if not in_stream[qi]:
-                vm.check(BOOL(qi not in res), "no answer for a detection that is not in the stream")
+        check_visual_assignment(vm, P, O, qids, tids, stream, res, pthr)
     return q
 
 
